@@ -909,6 +909,237 @@ fn ising_runs(g: &mut SplitMix64, thorough: bool, ngraphs: usize) {
     }
 }
 
+// ---------------------------------------------------------------------------------------------
+// the gate of the generic sampler: `Qmc::cluster_update` must refuse (and `timestep` must skip the
+// cluster update) as soon as ANY registered term breaks the Ising symmetry, whatever the order in
+// which the terms were added (C09, last clause: clusters holding a symmetry-breaking op are never flipped)
+// ---------------------------------------------------------------------------------------------
+
+#[derive(Clone, Debug)]
+struct Term {
+    /// 0 = make_interaction, 1 = make_interaction_and_offset, 2 = make_diagonal_interaction,
+    /// 3 = make_diagonal_interaction_and_offset
+    ctor: u8,
+    vars: Vec<usize>,
+    mat: Vec<f64>,
+    asym: bool,
+    edge: bool,
+}
+
+fn show_term(t: &Term) -> String {
+    let m: Vec<String> = t.mat.iter().map(|x| rat(*x)).collect();
+    format!("{}:{}:{}", if t.ctor < 2 { "F" } else { "D" }, list(&t.vars), m.join(","))
+}
+
+fn asym_term(g: &mut SplitMix64, v: usize) -> Term {
+    let h = g.range(1, 12) as f64 / 8.0;
+    let (a, b) = (dy(g), dy(g) + 2.0);
+    let (ctor, mat) = match g.below(6) {
+        0 => (1u8, vec![-h, 0.0, 0.0, h]),   // h·σz with offset: zero element on one state
+        1 => (1u8, vec![h, 0.0, 0.0, -h]),
+        2 => (0u8, vec![a, 0.0, 0.0, b]),    // no zero element, still asymmetric
+        3 => (0u8, vec![0.0, 0.0, 0.0, b]),
+        4 => (2u8, vec![0.0, b]),
+        _ => (3u8, vec![-h, h]),
+    };
+    Term { ctor, vars: vec![v], mat, asym: true, edge: false }
+}
+
+fn gate_scenario(g: &mut SplitMix64, thorough: bool, placement: u64) {
+    type Q = DefaultQmc<SharedRng>;
+    let nv = g.range(2, if thorough { 5 } else { 4 }) as usize;
+    // symmetric terms: two-variable diagonal couplings, constant single-site terms, sometimes a
+    // symmetric non-constant single-site term
+    let mut sym: Vec<Term> = vec![];
+    for v in 0..nv - 1 {
+        let (a, b) = (dy(g), dy(g));
+        let j = g.range(1, 8) as f64 / 4.0;
+        let t = match g.below(3) {
+            0 => Term { ctor: 2, vars: vec![v, v + 1], mat: vec![a, b, b, a], asym: false, edge: false },
+            1 => Term { ctor: 3, vars: vec![v, v + 1], mat: vec![-j, j, j, -j], asym: false, edge: false },
+            _ => Term { ctor: 3, vars: vec![v, v + 1], mat: vec![j, -j, -j, j], asym: false, edge: false },
+        };
+        sym.push(t);
+    }
+    let with_edges = g.chance(5, 6);
+    if with_edges {
+        for v in 0..nv {
+            if g.chance(3, 4) {
+                sym.push(Term { ctor: 0, vars: vec![v], mat: vec![dy(g); 4], asym: false, edge: true });
+            }
+        }
+    }
+    if g.chance(1, 4) {
+        let (a, b) = (dy(g), dy(g));
+        sym.push(Term { ctor: 0, vars: vec![g.below(nv as u64) as usize], mat: vec![a, b, b, a], asym: false, edge: a == b });
+    }
+    // random order of the symmetric terms
+    for i in (1..sym.len()).rev() {
+        let j = g.below(i as u64 + 1) as usize;
+        sym.swap(i, j);
+    }
+    let n_asym = if g.chance(1, 5) { 0 } else { g.range(1, 2) as usize };
+    let mut terms = sym;
+    for _ in 0..n_asym {
+        let v = g.below(nv as u64) as usize;
+        let t = asym_term(g, v);
+        let pos = match placement % 4 {
+            0 => 0,                                   // asymmetric first
+            1 => terms.len() / 2,                     // in the middle
+            2 => terms.len(),                         // last
+            _ => g.below(terms.len() as u64 + 1) as usize,
+        };
+        terms.insert(pos, t);
+    }
+    let any_asym = terms.iter().any(|t| t.asym);
+    let any_edge = terms.iter().any(|t| t.edge);
+    let rng = SharedRng::new(g.next());
+    let st: Vec<bool> = (0..nv).map(|_| g.coin()).collect();
+    let mut q = Q::new_with_state(nv, rng.clone(), st, g.coin());
+    for t in &terms {
+        let r = match t.ctor {
+            0 => q.make_interaction(t.mat.clone(), t.vars.clone()),
+            1 => q.make_interaction_and_offset(t.mat.clone(), t.vars.clone()),
+            2 => q.make_diagonal_interaction(t.mat.clone(), t.vars.clone()),
+            _ => q.make_diagonal_interaction_and_offset(t.mat.clone(), t.vars.clone()),
+        };
+        r.unwrap();
+    }
+    // tables of the matrix elements the sampler really uses (`Interaction::at`)
+    let bonds: Vec<TableBond> = terms
+        .iter()
+        .enumerate()
+        .map(|(b, t)| {
+            let k = t.vars.len();
+            let mut mat = vec![0.0; 1 << (2 * k)];
+            for outs in patterns(k) {
+                for ins in patterns(k) {
+                    mat[bit_index(outs.iter().chain(ins.iter()))] = q.get_bonds()[b].at(&ins, &outs).unwrap();
+                }
+            }
+            TableBond { vars: t.vars.clone(), constant: q.get_bonds()[b].is_constant(), mat }
+        })
+        .collect();
+    let mut orc: Result<(), String> = Ok(());
+    let mut fail = |orc: &mut Result<(), String>, msg: String| {
+        if orc.is_ok() {
+            *orc = Err(msg);
+        }
+    };
+    // (a) the documented gate, on the freshly built sampler
+    let should = q.should_do_cluster_update();
+    let ok0 = q.cluster_update().is_ok();
+    rng.take_log();
+    if should != (!any_asym && any_edge) {
+        fail(&mut orc, format!("should_do_cluster_update() = {} with asymmetric term present = {}, constant single-site term present = {}", should, any_asym, any_edge));
+    }
+    if ok0 != !any_asym {
+        fail(&mut orc, format!("cluster_update() returned {} although an asymmetric term is registered = {}", if ok0 { "Ok" } else { "Err" }, any_asym));
+    }
+    let positive = |m: &FastOps| -> Result<(), String> {
+        for (p, o) in snap(m).iter().enumerate() {
+            if let Some(o) = o {
+                if weight(&bonds, o) <= 0.0 {
+                    return Err(format!("op of bond {} at p={} sits on a zero matrix element (ins {} outs {})", o.bond, p, bits(&o.ins), bits(&o.outs)));
+                }
+            }
+        }
+        Ok(())
+    };
+    // (b) the parts of `timestep`, with the cluster step isolated
+    let beta = *g.pick(&[0.5, 1.0, 2.0, 4.0]);
+    let rounds = if thorough { 10 } else { 6 };
+    for round in 0..rounds {
+        let pre = {
+            let q = &mut q;
+            catch(|| {
+                q.diagonal_update(beta);
+                if q.should_do_loop_update() {
+                    q.loop_update();
+                }
+            })
+        };
+        rng.take_log();
+        if let Err(e) = pre {
+            fail(&mut orc, format!("sampler panicked before the cluster step: {}", e));
+            break;
+        }
+        if let Err(e) = positive(q.get_manager_ref()) {
+            fail(&mut orc, format!("before the cluster step (round {}): {}", round, e));
+            break;
+        }
+        let inst = Inst { nvars: nv, state: q.clone_state(), man: q.get_manager_ref().clone(), bonds: bonds.clone(), frozen: vec![], origin: "gate" };
+        let res = {
+            let q = &mut q;
+            catch(|| q.cluster_update().is_ok())
+        };
+        let draws = rng.take_log();
+        match res {
+            Err(e) => {
+                fail(&mut orc, format!("cluster_update panicked: {}", e));
+                break;
+            }
+            Ok(ran) => {
+                if ran != !any_asym {
+                    fail(&mut orc, format!("round {}: cluster_update() returned {} although an asymmetric term is registered = {}", round, if ran { "Ok" } else { "Err" }, any_asym));
+                }
+                if q.should_do_cluster_update() != (!any_asym && any_edge) {
+                    fail(&mut orc, format!("round {}: should_do_cluster_update() = {}", round, q.should_do_cluster_update()));
+                }
+                let state = q.clone_state();
+                let man = q.get_manager_ref().clone();
+                if ran {
+                    // whatever ran must be a weight-preserving cluster move (full C09 oracle + models)
+                    let ret2 = recount(&inst, &state, &man, g);
+                    let ret = draws.len();
+                    emit_move("flip", &inst, &Outcome { state, man, ret, draws }, ret2, false, false);
+                } else if snap(&man) != snap(&inst.man) || state != inst.state || !draws.is_empty() {
+                    fail(&mut orc, format!("round {}: cluster_update() returned Err but changed the configuration or drew {} words", round, draws.len()));
+                }
+                if let Err(e) = positive(q.get_manager_ref()) {
+                    fail(&mut orc, format!("after the cluster step (round {}, ran = {}): {}", round, ran, e));
+                }
+            }
+        }
+        q.flip_free_bits();
+        rng.take_log();
+    }
+    // … and `timestep` itself
+    for round in 0..rounds {
+        let r = {
+            let q = &mut q;
+            catch(|| {
+                q.timestep(beta);
+            })
+        };
+        rng.take_log();
+        if let Err(e) = r {
+            fail(&mut orc, format!("timestep panicked: {}", e));
+            break;
+        }
+        if let Err(e) = positive(q.get_manager_ref()) {
+            fail(&mut orc, format!("after timestep {}: {}", round, e));
+            break;
+        }
+        let st = q.clone_state();
+        match propagate_check(q.get_manager_ref(), &st) {
+            Ok(s) if s == st => {}
+            _ => {
+                fail(&mut orc, format!("after timestep {}: not a consistent periodic configuration", round));
+                break;
+            }
+        }
+    }
+    stat(&format!("gate.asym_{}.edge_{}.place_{}", any_asym, any_edge, placement % 4), 1);
+    let toks: Vec<String> = terms.iter().map(show_term).collect();
+    emit(
+        true,
+        &format!("gate {}", toks.join(" ")),
+        &format!("{} {}", should as u8, ok0 as u8),
+        Some(orc),
+    );
+}
+
 /// generic sampler: flip-symmetric interactions + constant single-site terms; `Qmc::cluster_update`
 fn generic_runs(g: &mut SplitMix64, thorough: bool, nruns: usize) {
     type Q = DefaultQmc<SharedRng>;
@@ -1018,6 +1249,9 @@ fn main() {
         generic_runs(&mut g, a.thorough, if a.thorough { 300 } else { 40 });
         for _ in 0..(if a.thorough { 600 } else { 100 }) {
             lockstep_case(&mut g, a.thorough);
+        }
+        for k in 0..(if a.thorough { 1600 } else { 240 }) {
+            gate_scenario(&mut g, a.thorough, k);
         }
     }
 }
